@@ -119,8 +119,10 @@ def rule_twin(chk):
                 ok = 'xij[0]=xi-xj' in src and 'xij[1]=yi-yj' in src and 'xij[2]=zi-zj' in src and \
                     'rij:\'double\'=sqrt(xij[0]*xij[0]+xij[1]*xij[1]+xij[2]*xij[2])' in src and \
                     ('returnself.kern.kernel(xij,rij,h)' in src if m == 'kernel' else 'self.kern.gradient(xij,rij,h,grad)' in src and 'returngrad[0],grad[1],grad[2]' in src.replace('(', '').replace(')', ''))
+                ok = ok and not any(isinstance(x, (ast.If, ast.For, ast.While, ast.IfExp)) for x in ast.walk(f))
                 chk.decide(ok, 'compiled-twin', '%sWrapper.%s' % (name, m), node=f, file=CK, func='%sWrapper.%s' % (name, m),
-                           detail_bad='wrapper does not pass xij = x_i - x_j, rij = |xij| and h to the kernel', detail_ok='xij = xi - xj, rij = |xij|')
+                           detail_bad='wrapper does not unconditionally pass xij = x_i - x_j, rij = |xij| and h to the kernel and return what it computed '
+                                      '(a skipped call returns whatever the persistent buffer held)', detail_ok='straight-line: xij = xi - xj, rij = |xij|, kernel call')
     chk.floor('twin methods compared', nm, 50)
     # the class list of the generating template equals the classes defined
     tsrc = M.read(CKT)
@@ -456,6 +458,43 @@ def rule_cutoff(chk, pyk):
                        detail_bad='the value beyond the cut-off is not identically zero', detail_ok='0 beyond the cut-off')
 
 
+def rule_gradient_form(chk, pyk):
+    """gradient = (dW/dr) * unit separation vector, decided algebraically: with I = [rij > eps] the three stored components satisfy
+    grad[k] * h * rij == I * dwdq(rij, h) * xij[k]  (value numbering with reciprocal atoms; any equivalent spelling is accepted)"""
+    from verif_static import symb as S
+    for name, cls in sorted(pyk.items()):
+        g = M.methods(cls).get('gradient')
+        ctx = S.Ctx(seconds=20)
+        try:
+            ev = S.Evaluator(ctx, ast.FunctionDef(name='gradient', args=g.args, body=M.docstring_stripped(g.body), decorator_list=[]))
+            ev.run()
+            guards = [x for x in ast.walk(g) if isinstance(x, ast.If)]
+            gd = ev.cond(guards[0].test) if len(guards) == 1 else None
+            want_fn = ctx.fn('self.dwdq', [ctx.var('rij'), ctx.var('h')])
+            bad = []
+            for k in range(3):
+                got = ev.env.get('grad[%d]' % k)
+                if got is None:
+                    bad.append('grad[%d] never stored' % k)
+                    continue
+                lhs = ctx.mul(ctx.mul(got, ctx.var('h')), ctx.var('rij'))
+                rhs = ctx.mul(ctx.mul(gd if gd is not None else S.Poly.const(1), want_fn), ctx.var('xij[%d]' % k))
+                if not ctx.simplify(lhs - rhs).is_zero():
+                    bad.append('grad[%d] = %s' % (k, compact_poly(got)))
+            ok = not bad and gd is not None and guards[0].test and isinstance(guards[0].test, ast.Compare) and \
+                compact(guards[0].test.left) == 'rij' and isinstance(guards[0].test.ops[0], ast.Gt)
+            chk.decide(ok, 'gradient-is-radial', name, node=g, file=KER, func=name + '.gradient',
+                       detail_bad='grad W = (dW/dr) x_ij/r requires grad[k]*h*rij == [rij > eps]*dwdq(rij, h)*xij[k] for k = 0, 1, 2; not so for: %s' % '; '.join(bad),
+                       detail_ok='grad[k]*h*rij == [rij>eps]*dwdq(rij,h)*xij[k], k = 0, 1, 2')
+        except (S.Unsupported, S.Budget) as e:
+            chk.undecided('gradient-is-radial', name, node=g, file=KER, func=name + '.gradient', detail='prover gave up: %s' % e)
+
+
+def compact_poly(p):
+    s = str(p)
+    return s if len(s) < 160 else s[:157] + '...'
+
+
 def rule_r0(chk, pyk):
     for name, cls in sorted(pyk.items()):
         for m in ('gradient', 'dwdq', 'gradient_h', 'kernel'):
@@ -727,6 +766,7 @@ def main(chk):
     rule_dimensions(chk, pyk)
     rule_cutoff(chk, pyk)
     rule_r0(chk, pyk)
+    rule_gradient_form(chk, pyk)
     rule_algebra(chk, pyk)
     chk.extra['programs'] = len(pyk) * len(METHODS)
     chk.extra['disagreements_checked'] = len([o for o in chk.obs if o.rule == 'compiled-twin'])
